@@ -15,6 +15,7 @@
 (*   H  histories of repeated fusion over a pool of base streams           *)
 (*   R  single statements lhs x rhs x cond for the read/written sets       *)
 (*   G  all labelled DAGs with at most MaxN nodes for the dot export       *)
+(*   L  chains of 6..8 nodes with shortcut edges in three list orders      *)
 (* Every complete behaviour is printed as one JSON line.                   *)
 (***************************************************************************)
 EXTENDS C20_Algo, Json
@@ -140,6 +141,30 @@ GEdges(d) == UNION {{<< k, j >> : j \in d[k]} : k \in 1..Len(d)}
 GStream(n, d) == [k \in 1..n |-> NopS(GName(k), [j \in 1..Len(IdxSeq(d[k], n)) |-> GName(IdxSeq(d[k], n)[j])])]
 
 (***************************************************************************)
+(* Mode L: long chains n1 <- n2 <- ... <- nn (6..8 nodes) with shortcut    *)
+(* edges, listed in three different statement orders (the export iterates  *)
+(* over a dict in list order).  The closure-then-reduce algorithm is only  *)
+(* sensitive to incomplete closures on paths of 5 edges or more, which no  *)
+(* DAG of mode G has.                                                      *)
+(***************************************************************************)
+RECURSIVE SmallSubsets(_, _)
+SmallSubsets(S, k) == IF k = 0 THEN {{}}
+                      ELSE LET prev == SmallSubsets(S, k - 1) IN
+                           prev \cup {sx[1] \cup {sx[2]} : sx \in prev \X S}
+LShort(n) == {ij \in (1..n) \X (1..n) : ij[2] > ij[1] + 1}
+LShortSets(n) == IF n = 6 THEN SUBSET LShort(n)
+                 ELSE SmallSubsets(LShort(n), IF Tier = "thorough" THEN 3 ELSE 2)
+LPerms(n) == { [p \in 1..n |-> p], [p \in 1..n |-> n + 1 - p],
+               [p \in 1..n |-> IF p <= (n + 1) \div 2 THEN 2 * p - 1
+                                ELSE 2 * (p - ((n + 1) \div 2))] }
+LCases == UNION {{[n |-> n, sc |-> sc, perm |-> pm] : sc \in LShortSets(n), pm \in LPerms(n)} :
+                    n \in 6..8}
+LDeps(c, k) == (IF k < c.n THEN {k + 1} ELSE {}) \cup {ij[2] : ij \in {x \in c.sc : x[1] = k}}
+LStream(c) == [p \in 1..c.n |->
+                 LET k == c.perm[p]  ds == IdxSeq(LDeps(c, k), c.n) IN
+                 NopS(GName(k), [j \in 1..Len(ds) |-> GName(ds[j])])]
+
+(***************************************************************************)
 (* The generator                                                           *)
 (***************************************************************************)
 Init ==
@@ -153,6 +178,7 @@ Init ==
                                 c \in HClasses, p \in 1..Len(HPool)}
     \/ "R" \in Modes /\ mode = "R" /\ st \in {[s |-> s] : s \in RStmts}
     \/ "G" \in Modes /\ mode = "G" /\ st \in {[n |-> n, d |-> << >>] : n \in 0..MaxN}
+    \/ "L" \in Modes /\ mode = "L" /\ st \in LCases
 
 Next ==
     /\ UNCHANGED mode
@@ -168,6 +194,9 @@ Next ==
              ELSE \E o \in HOps(st.cls.c) : st' = [st EXCEPT !.ops = Append(@, o)]
        \/ /\ mode = "G" /\ Len(st.d) < st.n
           /\ \E ds \in SUBSET ((1..st.n) \ {Len(st.d) + 1}) :
+                \* quick tier: of the 5-node DAGs only those whose first node has 0, 3 or 4
+                \* dependencies (about a third); all DAGs with <= 4 nodes; thorough: all
+                /\ (Tier # "quick" \/ st.n < 5 \/ Len(st.d) > 0 \/ Cardinality(ds) \in {0, 3, 4})
                 /\ AcyclicE(GEdges(Append(st.d, ds)))
                 /\ st' = [st EXCEPT !.d = Append(@, ds)]
 
@@ -177,6 +206,7 @@ Complete ==
       [] mode = "H" -> Len(st.ops) = st.cls.d
       [] mode = "R" -> TRUE
       [] mode = "G" -> Len(st.d) = st.n
+      [] mode = "L" -> TRUE
 
 (***************************************************************************)
 (* Checked on the model                                                    *)
@@ -186,6 +216,7 @@ GeneratedWellFormed ==
     /\ mode = "F" /\ Complete => WellFormed(st.SA) /\ WellFormed(st.SB) /\ StreamOK(st.SA) /\ StreamOK(st.SB)
     /\ mode = "D" /\ Complete => WellFormed(st.SA) /\ WellFormed(st.SB) /\ StreamOK(st.SA) /\ StreamOK(st.SB)
     /\ mode = "G" /\ Complete => WellFormed(GStream(st.n, st.d))
+    /\ mode = "L" => WellFormed(LStream(st))
     \* the two formulations of acyclicity agree, also on the cyclic candidates
     /\ mode = "G" /\ Len(st.d) < st.n =>
           \A ds \in SUBSET ((1..st.n) \ {Len(st.d) + 1}) :
@@ -199,6 +230,9 @@ TRUnique ==
         /\ (st.n <= 4 \/ Tier = "thorough") => TRIrredundant(E)
         /\ st.n <= 4 => TRIsLeast(E)
 
+TRPreservesReachabilityL ==
+    mode = "L" => LET E == DepEdges(LStream(st)) IN TC(TR(E)) = TC(E)
+
 \* A-layer refines M-layer (algorithms as repaired / as they are where no deviation is known)
 AlgoRefinesMeaning ==
     /\ mode = "F" /\ Complete =>
@@ -209,6 +243,7 @@ AlgoRefinesMeaning ==
     /\ mode = "R" => RWClause(st.s, ReadsImpl(st.s, FALSE), WritesImpl(st.s)) = "OK"
     /\ mode = "G" /\ Complete =>
           DotImplEdges(GStream(st.n, st.d)) = TR(DepEdges(GStream(st.n, st.d)))
+    /\ mode = "L" => DotImplEdges(LStream(st)) = TR(DepEdges(LStream(st)))
 
 \* what the transcription of the code as it is (with Dev_ReadsIgnoreLhs) predicts
 Pred ==
@@ -217,6 +252,7 @@ Pred ==
       [] mode = "R" -> RWClause(st.s, ReadsImpl(st.s, TRUE), WritesImpl(st.s))
       [] mode = "F" -> "OK"
       [] mode = "G" -> "OK"
+      [] mode = "L" -> "OK"
       [] OTHER -> "-"
 
 Case ==
@@ -227,6 +263,7 @@ Case ==
       [] mode = "H" -> [k |-> "hist", init |-> st.init, pred |-> Pred, ops |-> st.ops]
       [] mode = "R" -> [k |-> "rw", s |-> st.s, pred |-> Pred]
       [] mode = "G" -> [k |-> "dot", S |-> GStream(st.n, st.d), pred |-> Pred]
+      [] mode = "L" -> [k |-> "dot", S |-> LStream(st), pred |-> Pred]
 
 Emit == Complete => PrintT(ToJson(Case))
 =============================================================================
